@@ -59,6 +59,7 @@ def run_entry(en, tier):
             h = H(ex)
             inputs, thunk = en.build(h, shape)
             hold["inputs"] = deep_copy(inputs)
+            hold["felt_vars"] = [t for n, k, t in h.b.vars if k == "felt"]
             return thunk()
         try:
             outs = ex.explore(entry, max_paths=en.max_paths, budget_s=en.budget_s)
@@ -89,7 +90,7 @@ def run_entry(en, tier):
         tried = 0
         for shape, ex, o, hold in cands[:12]:
             tried += 1
-            v, model = sxh.solve_path(ex, o, hold["inputs"], st, timeout_s=60)
+            v, model = sxh.solve_path(ex, o, hold["inputs"], st, timeout_s=60, bias_vars=hold.get("felt_vars", ()))
             if v != "sat":
                 continue
             conc = concretize(hold["inputs"], model)
